@@ -130,8 +130,8 @@ static bool relevant(const std::string& prop, const std::string& vprops, const C
     const bool generic = has_prop(vprops, "VAL") || has_prop(vprops, "CRASH");
     const bool mem = has_prop(vprops, "MEM");
     const uint8_t k = e.last.k;
-    if (prop == "C17") return in_fault && (generic || mem || has_prop(vprops, "C06") || has_prop(vprops, "C07"));
-    if (in_fault) return false;
+    if (prop == "C17") return (in_fault || e.fault_seen) && (generic || mem || has_prop(vprops, "C06") || has_prop(vprops, "C07"));
+    if (in_fault || e.fault_seen) return false;
     if (prop == "C01") return generic && is_c01_op(k) && !e.seen_pair_op;
     if (prop == "C02") return mem || has_prop(vprops, "CRASH");
     // a stored value that differs from the model after an operation that was not asked to write it has been
@@ -141,7 +141,10 @@ static bool relevant(const std::string& prop, const std::string& vprops, const C
     if (prop == "C10") return (generic || mem) && (k == O_RS || e.fill_phase);
     if (prop == "C11") return (generic && is_ref_op(k)) || false;
     if (prop == "C12") return (generic || mem) && is_elem_op(k);
-    if (prop == "C18") return (generic || mem) && e.pre_empty;
+    // every monitor counts for an operation on an empty / default-constructed vector ("well defined on it")
+    if (prop == "C18")
+        return (generic || mem || has_prop(vprops, "C07") || has_prop(vprops, "C08") || has_prop(vprops, "C06") || has_prop(vprops, "C02")) &&
+               e.pre_empty;
     return false;
 }
 
@@ -227,7 +230,7 @@ struct Progress
     char opstr[64];
     char tag[32];
     char crash[64];
-    int pre_empty, seen_pair_op, fill_phase;
+    int pre_empty, seen_pair_op, fill_phase, fault_seen;
 };
 static Progress* g_prog = nullptr;
 
@@ -248,7 +251,7 @@ static bool run_transition(const Cli& cli, const History& hist, const Op& o, int
     Eng* e = replay_state(cli, hist);
     const unsigned replay_noise = static_cast<unsigned>(env::viols().size()) + g_asan_reports;
     env::viols().clear();
-    const bool want_canon = o.k == O_RS;
+    const bool want_canon = o.k == O_RS || e->pending_fail != 0;
     auto pre = e->snapshot(want_canon);
     e->keep_iterators();
     {
@@ -258,6 +261,7 @@ static bool run_transition(const Cli& cli, const History& hist, const Op& o, int
         const bool vec_op = o.k < O_XR || o.k == O_VMUT;
         g_prog->pre_empty = vec_op && t >= 0 && t < 2 && (o.k == O_NEW || o.k == O_DEF || (e->m[t].present && e->m[t].el.empty()));
         g_prog->seen_pair_op = e->seen_pair_op;
+        g_prog->fault_seen = e->fault_seen || e->pending_fail != 0;
         g_prog->fill_phase = e->fill_phase;
     }
     env::L().fail_at = fail_at;
@@ -397,7 +401,7 @@ static int replay_main(const Cli& cli)
     for (size_t i = 0; i < h.size(); ++i)
     {
         env::viols().clear();
-        auto pre = e.snapshot(h[i].k == O_RS);
+        auto pre = e.snapshot(h[i].k == O_RS || e.pending_fail != 0);
         e.keep_iterators();
         // a recorded allocation failure is injected into the last operation of the history
         const bool inject = cli.fail_at > 0 && i + 1 == h.size();
@@ -472,6 +476,7 @@ int main(int argc, char** argv)
         else if (a == "--tmpdir") cli.tmpdir = next();
         else if (a == "--replay") cli.replay = next();
         else if (a == "--fail-at") cli.fail_at = std::atoi(next().c_str());
+        else if (a == "--fault-ops") cli.prm.fault_ops = std::atoi(next().c_str());
         else if (a == "--max-states") cli.max_states = std::atol(next().c_str());
         else if (a == "--no-terminal") cli.terminal = false;
         else if (a == "--faults") cli.faults = std::atoi(next().c_str());
@@ -633,7 +638,7 @@ int main(int argc, char** argv)
                         }
                         write_all(fd, "K\t" + std::string(g_prog->opstr) + "\t" + why + "\t" + std::to_string(g_prog->fail_at) + "\t" +
                                           std::to_string(g_prog->pre_empty) + "\t" + std::to_string(g_prog->seen_pair_op) + "\t" +
-                                          std::to_string(g_prog->fill_phase) + "\n");
+                                          std::to_string(g_prog->fill_phase) + "\t" + std::to_string(g_prog->fault_seen) + "\n");
                     }
                     // continue behind the transition that was in flight
                     if (g_prog->done_state)
@@ -739,6 +744,7 @@ int main(int argc, char** argv)
                         cx.pre_empty = f[4] == "1";
                         cx.seen_pair_op = f[5] == "1";
                         cx.fill_phase = f[6] == "1";
+                        cx.fault_seen = f.size() > 7 && f[7] == "1";
                         bool rel = false;
                         for (auto& p : cli.prm.active) rel = rel || relevant(p, "CRASH", cx, false);
                         if (!rel) r.verdict = "FOREIGN-CRASH";
